@@ -21,6 +21,7 @@ class _Tracker:
         self.tests = []       # (offset, node)
         self.classes = []     # (offset, literal or 'call:has_reserved', node)
         self.alias = {}       # local var id -> offset of the element it holds
+        self.uses = []        # (offset, callee) the element is handed to a function that does not classify brackets
         self.classify_calls = classify_calls
 
     def _is_cur(self, n):
@@ -152,7 +153,9 @@ class _Tracker:
                 ao = self.elem_offset(a)
                 if ao is not None and name in self.classify_calls:
                     self.classes.append((ao, "call:" + name, n))
-                elif ao is None:
+                elif ao is not None:
+                    self.uses.append((ao, name, n))
+                else:
                     self.visit(a)
             return
         if k == "DeclStmt":
